@@ -23,7 +23,7 @@ MANIFEST = {
             "moments, asphericity, acylindricity, relative shape anisotropy; density x mass vectors; compute_rdf x "
             "r_range x bin_width/n_bins x periodic x opt x pair sets and compute_rdf_t; compute_drid x atom subsets "
             "(sorted, unsorted, bond-cutting); directors/nematic order x {chains, residues, explicit groups}; dipole "
-            "moments, static dielectric, isothermal compressibility; the three Karplus J-couplings x coefficient sets. "
+            "moments (incl. ion/water systems spread over a small triclinic cell so that residue origins are reached through periodic images), static dielectric, isothermal compressibility; the same descriptors on topology objects EDITED IN PLACE after a first round of calls (elements; a residue renamed), argument arrays must come back unmodified, one topology with residue atoms interleaved in index order; the three Karplus J-couplings x coefficient sets. "
             "Quick: 7 structures, reduced RDF/soft-min axes; thorough: all 11 structures, the hand-built system in the 6 cells of the shared cell menu (contacts), and all axes. Oracle: the "
             "documented closed form in float64 on the same float32 coordinates, masses and cell (minimum image by "
             "brute force over images); tolerance from a float32/float64 error model per quantity. Right level: the "
